@@ -6,6 +6,7 @@ CONSTANTS
   WriterTyped = {TRUE, FALSE}
   Namings = {"plain"}
   RetireRule = "equal"
+  Reps = {"list"}
   Reversed = {FALSE}
   FnStep = 2
   Isolated = TRUE
